@@ -162,6 +162,7 @@ fn build_compare_op(
         #[automatically_derived]
         #[allow(clippy::double_parens)]
         #[allow(unused_parens)]
+        #[allow(non_snake_case)]
         impl #impl_g #trait_ for #this_ty #wheres {
             #body
         }
